@@ -341,3 +341,54 @@ def struct_format(run, ctx, call):
                         fmt = fmt.decode('ascii')
                     return (v.attr, fmt)
     return None
+
+
+# ----------------------------------------------------------------------------- linear comparisons
+def _lin(e, sign, out, alias):
+    if isinstance(e, ast.BinOp) and isinstance(e.op, ast.Add):
+        _lin(e.left, sign, out, alias)
+        _lin(e.right, sign, out, alias)
+    elif isinstance(e, ast.BinOp) and isinstance(e.op, ast.Sub):
+        _lin(e.left, sign, out, alias)
+        _lin(e.right, -sign, out, alias)
+    elif isinstance(e, ast.UnaryOp) and isinstance(e.op, ast.USub):
+        _lin(e.operand, -sign, out, alias)
+    elif isinstance(e, ast.Constant) and isinstance(e.value, (int, float)) and not isinstance(e.value, bool):
+        out['1'] = out.get('1', 0) + sign * e.value
+    else:
+        t = alias.get(U(e), U(e))
+        if isinstance(t, ast.AST):
+            _lin(t, sign, out, alias)
+        else:
+            out[t] = out.get(t, 0) + sign
+    return out
+
+
+def lin_cmp(text_or_expr, polarity=True, alias=None):
+    """Normalise ``L op R`` to ({term: coef}, '>=' | '>' | '==' | '!=') meaning  sum(coef*term) op 0."""
+    e = text_or_expr
+    if isinstance(e, str):
+        try:
+            e = ast.parse(e, mode='eval').body
+        except SyntaxError:
+            return None
+    if not (isinstance(e, ast.Compare) and len(e.ops) == 1):
+        return None
+    op = type(e.ops[0])
+    if not polarity:
+        op = {ast.Lt: ast.GtE, ast.LtE: ast.Gt, ast.Gt: ast.LtE, ast.GtE: ast.Lt, ast.Eq: ast.NotEq,
+              ast.NotEq: ast.Eq}.get(op)
+        if op is None:
+            return None
+    l, r = e.left, e.comparators[0]
+    if op in (ast.Lt, ast.LtE):
+        l, r = r, l
+        op = {ast.Lt: ast.Gt, ast.LtE: ast.GtE}[op]
+    out = {}
+    _lin(l, 1, out, alias or {})
+    _lin(r, -1, out, alias or {})
+    out = {k: v for k, v in out.items() if v != 0}
+    sym = {ast.GtE: '>=', ast.Gt: '>', ast.Eq: '==', ast.NotEq: '!='}.get(op)
+    if sym is None:
+        return None
+    return out, sym
